@@ -1413,7 +1413,7 @@ void mmd_assign_ambidextrous_tokens_in_block(mmd_engine * e, token * block, size
 				}
 
 				// We can only close if there is something to left besides whitespace
-				if ((offset == 0) || (char_is_whitespace_or_line_ending(str[offset]))) {
+				if (((offset == 0) && ((str[0] == '*') || (str[0] == '_'))) || (char_is_whitespace_or_line_ending(str[offset]))) {
 					// Whitespace or punctuation to left, so can't close
 					t->can_close = 0;
 				}
@@ -1531,13 +1531,13 @@ void mmd_assign_ambidextrous_tokens_in_block(mmd_engine * e, token * block, size
 					offset--;
 				}
 
-				if ((offset == 0) || (char_is_whitespace_or_line_ending(str[offset]))) {
+				if (((offset == 0) && ((str[0] == '*') || (str[0] == '_'))) || (char_is_whitespace_or_line_ending(str[offset]))) {
 					// Whitespace to left, so can't close
 					t->can_close = 0;
 				}
 
 				// We don't allow intraword underscores (e.g.  `foo_bar_foo`)
-				if ((offset > 0) && (char_is_alphanumeric(str[offset]))) {
+				if (char_is_alphanumeric(str[offset])) {
 					// Letters to left, so can't open
 					t->can_open = 0;
 				}
